@@ -22,6 +22,8 @@
 //	      <n procs> (<S|G> <depth> <marker set> <marker> <upload var>)* <token exists after>
 //	      <token (re)created> <dir changed>
 //	race  <n starters> <token: A | P age> <n procs> (...)*
+//	tokrace <n goroutines> <token: A | P age> <number that got true>
+//	      (the real acquireUploadToken called concurrently in this process)
 package main
 
 import (
@@ -391,6 +393,38 @@ func runRace(idx, n int, tok tokenSpec) []string {
 	return f
 }
 
+// tokRace: n goroutines call the real acquireUploadToken at once.
+func tokRace(idx, n int, tok tokenSpec) []string {
+	dir := filepath.Join(root, fmt.Sprintf("k%d", idx))
+	os.MkdirAll(dir, 0777)
+	defer os.RemoveAll(dir)
+	local := "local"
+	tdir := setupDir(dir, startCase{modeFile: &local, localPre: true, token: tok})
+	it.Default = it.NewDir(tdir)
+	start := make(chan struct{})
+	res := make([]bool, n)
+	var wg sync.WaitGroup
+	for i := 0; i < n; i++ {
+		wg.Add(1)
+		go func() {
+			defer wg.Done()
+			<-start
+			res[i] = telemetry.VerifAcquireUploadToken()
+		}()
+	}
+	close(start)
+	wg.Wait()
+	won := 0
+	for _, b := range res {
+		if b {
+			won++
+		}
+	}
+	f := []string{"tokrace", I(int64(n))}
+	f = append(f, tokenFields(tok)...)
+	return append(f, I(int64(won)))
+}
+
 func sp(s string) *string { return &s }
 
 func main() {
@@ -510,15 +544,35 @@ func main() {
 	}
 
 	// concurrent starters racing for the token (run one race at a time)
-	races := 4
+	races := 12
 	if os.Getenv("VERIF_TIER") == "thorough" {
-		races = 16
+		races = 80
 	}
 	raceTokens := []tokenSpec{{false, 0}, {false, 0}, {true, time.Hour}, {true, 25 * time.Hour}}
 	for i := 0; i < races; i++ {
 		tk := raceTokens[i%len(raceTokens)]
 		f := runRace(i, 8, tk)
 		out.Note("race")
+		out.Case(true, f...)
+	}
+	// the real acquireUploadToken raced by goroutines of this process
+	rounds := 400
+	if os.Getenv("VERIF_TIER") == "thorough" {
+		rounds = 6000
+	}
+	for i := 0; i < rounds; i++ {
+		var tk tokenSpec
+		switch i % 8 {
+		case 6:
+			tk = tokenSpec{true, Pick(rnd, ages[:5])}
+		case 7:
+			tk = tokenSpec{true, Pick(rnd, ages[5:])}
+		}
+		f := tokRace(i, 4+rnd.Intn(13), tk)
+		out.Note("tokrace")
+		if tk.present && tk.age >= 24*time.Hour && f[len(f)-1] != "i1" {
+			out.Note("tokrace-stale-token-winners-not-1")
+		}
 		out.Case(true, f...)
 	}
 	out.Close()
